@@ -132,6 +132,8 @@ def r_empty_decimal(ctx, rid='R11.7'):
 
 def check(ctx):
     r_empty_decimal(ctx)
+    from . import c04
+    c04.r_reviewed_grammar(ctx, 'R11.8', roots={'dec_literal', 'bin_literal', 'hex_literal', 'unsigned_type'})
     r_binary_bits(ctx)
     ctx.rule('R11.1', 'decision tables of the literal converters (decimal/binary/hex, sub-byte ranges, power-of-two and width tables) equal the reviewed table')
     table = guards.load_table()
